@@ -16,8 +16,8 @@ claim('C20', 'model_checking',
       'explicit-state BFS over registration histories on a real DBusConnection with a full call/listing probe in every state, judged by a dict model of the handler tree',
       'Histories of try_register_object_path / try_register_fallback (handlers that handle or decline) and unregister over 8 paths with shared prefixes, sibling names that sort adjacently and the root are '
       'explored to a depth bound with the model dict as state key; in every state a method call to each of 12 paths is dispatched and the order of handler invocations, the automatic reply '
-      '(UnknownMethod / UnknownObject) and dbus_connection_list_registered of every path are compared with the model.',
-      'Trusts the dict model. Introspect/Peer built-ins are outside the probe alphabet. The state key is the model dict (the tree has no other state); every state is probed completely, which would expose a hidden-state difference.',
+      '(UnknownMethod / UnknownObject) and dbus_connection_list_registered of every path are compared with the model; around every operation (and its inverse) the operation\'s own path and every probe path below it are dispatched immediately before and after, so that anything a dispatch remembers is confronted with the change.',
+      'Trusts the dict model. Introspect/Peer built-ins are outside the probe alphabet. The state key is the model dict plus the dump of the implementation\'s tree (hook H2).',
       'DESIGN.md section 4 C20')
 
 FACTORY = 'pyv.checks.c20:Session'
